@@ -160,7 +160,9 @@ class IntraTransaction(AbstractTransaction):
         return self.fiat_fee
 
     def is_taxable(self) -> bool:
-        return self.fiat_fee > ZERO
+        # The crypto fee (not its fiat value) decides: a non-zero fee always leaves the holder and must be matched to a lot, even
+        # when fee * spot_price is below RP2Decimal comparison precision (the constructor guarantees a non-zero spot price here).
+        return self.crypto_fee > ZERO
 
     def is_earning(self) -> bool:
         return False
